@@ -26,8 +26,8 @@ claim("C18",
       "DESIGN.md §3 C18")
 claim("C14",
       "ordering (must-pass-before) on the call-graph-expanded CFG of SendBundle + lockset/RMW on IdKeeper.data + who-may-call / who-may-write inventories",
-      "On every path of Core.SendBundle the sequence number is assigned before any call that can reach Store.Push and nowhere afterwards, the descriptor is built from the numbered bundle, the counter's read-increment-store-into-bundle is one exclusive region (all schedules of concurrent submissions), and every originator funnels through SendBundle. Path and lock facts quantify over all submission sequences and interleavings.",
-      "Not decided: uniqueness across the IdKeeper.clean horizon (time arithmetic), restarts (the keeper is in memory).",
+      "On every path of Core.SendBundle the sequence number is assigned before any call that can reach Store.Push and nowhere afterwards, the descriptor is built from the numbered bundle, the counter's read-increment-store-into-bundle is one exclusive region (all schedules of concurrent submissions), every originator funnels through SendBundle, and every assigned number is looked up in the persistent store before the push, which is reached only on the not-found outcome (the in-memory counter restarts at zero after a restart, stored bundles keep their IDs). Path and lock facts quantify over all submission sequences and interleavings.",
+      "Not decided: uniqueness across the IdKeeper.clean horizon (time arithmetic), IDs of bundles that already left the store before a restart.",
       "DESIGN.md §3 C14")
 claim("C05",
       "release-for-cause table over every call site that drops retention (guarded-call dominance), must-pass exits of forward, who-may-write Pending, call-graph wiring of the retry loop, assign-before-persist ordering, zero-time contradiction rule, multi-instance-goroutine atomicity rule, persist-before-blocking ordering of every constraint change (mutator summaries to a fixpoint)",
@@ -45,8 +45,8 @@ claim("C20",
       "Not decided: minimality of the chosen path (third-party library, run-time graph); arrival-order histories as a whole.",
       "DESIGN.md §3 C20")
 claim("C06",
-      "mutation inventory (who-may-write through bundle pointers, receiver-mutating-method closure) against an allow-table + unit/scale analysis of Duration conversions + reachability from exceeded edges + increment/decrement pairing with pure-call path consistency + narrow-counter rule",
-      "For every forwarding path: routing code can change a bundle in transit only through the mutators the property allows and never its primary block; every duration that reaches a millisecond quantity has scale 10^6; the exceeded/expired outcomes lead to deletion and cannot reach a send; the hop count is restored exactly once after the sends; an 8-bit hop count cannot wrap and its overflow counts as exceeded.",
+      "mutation inventory (who-may-write through bundle pointers, receiver-mutating-method closure) against an allow-table + unit/scale analysis of Duration conversions + reachability from exceeded edges + increment/decrement pairing with pure-call path consistency + narrow-counter rule + write-once rule for the reception time + must-pass removal of flagged unknown blocks before the sends",
+      "For every forwarding path: routing code can change a bundle in transit only through the mutators the property allows and never its primary block; every duration that reaches a millisecond quantity has scale 10^6; the exceeded/expired outcomes lead to deletion and cannot reach a send; the hop count is restored exactly once after the sends; an 8-bit hop count cannot wrap and its overflow counts as exceeded; the reception time the age is computed from is written only while a descriptor is constructed; every path of forward to the sends passes the removal of unknown blocks flagged for removal (retries load the stored bundle and bypass receive).",
       "Not decided: byte identity of the transmitted encoding; timing of the age value.",
       "DESIGN.md §3 C06")
 claim("C03",
@@ -71,7 +71,7 @@ claim("C09",
       "DESIGN.md §3 C09")
 claim("C10",
       "linear-bounds entailment from dominating guards for the merge slice, monotone-accumulator rule on the loop-carried coverage frontier, value-dependence of fragment coordinates, guarded append in the store",
-      "For every collection of fragments: the merge can only slice within bounds (both bounds entailed by dominating guards), the coverage frontier never moves backwards (so contained/overlapping fragments cannot cause a false gap), fragments of fragments keep original coordinates (value dependence on the input's offset/total), and the store de-duplicates parts before collecting. These are necessary conditions; equality of the reassembled payload is not decided.",
+      "For every collection of fragments: the merge can only slice within bounds (both bounds entailed by dominating guards), the coverage frontier never moves backwards (so contained/overlapping fragments cannot cause a false gap), fragments of fragments keep original coordinates (value dependence on the input's offset/total), the store de-duplicates parts before collecting, and the part file name is derived from the very length recorded as the part's dedup key. These are necessary conditions; equality of the reassembled payload is not decided.",
       "Not decided: that the returned payload equals the original for covering sets.",
       "DESIGN.md §3 C10")
 claim("C11",
